@@ -548,6 +548,12 @@ func (w *World) execInline(i int, op Op) (ev Event) {
 				ev.Val = getterFor(ph.U, op.W%9) + string(op.A)
 			}
 		}
+		if op.W%9 < 6 && len(ev.Val) > 100_000 {
+			// scheme, credentials, host, port: the library's handling of very long values there is
+			// quadratic (C20's business); never hand them one, wherever the value came from
+			ev.Skipped, ev.Target, ev.Mut = true, -1, false
+			return
+		}
 		applySetter(uh.U, op.W%9, ev.Val)
 	case "getsp":
 		uh := w.U[op.H]
